@@ -49,7 +49,8 @@ CLAIMED["C02"] = dict(
          "(after the last scheduler-hopping rx operator), and the "
          "shutdown-propagation table. Decides the obligations without which some ordering leaves a component pending "
          "or in a rule-violating state; does not explore interleavings."
-         " Every component that is stopped by finishedCheck has an observer first (the gate is exactly 'not staged in').",
+         " Every component that is stopped by finishedCheck has an observer first (the gate is exactly 'not staged in')."
+         " The first final state of a component stays: finish() assigns or schedules a final state only when none of FINISHED/FAILED/SHUTDOWN is set yet. One reproduced race (a stop within ~5 s after a restart) is listed as an observed known finding - it is not decided statically.",
     technique="statement CFG with handler/finally modelling: must-pass-through, per-path call counting, branch-table "
               "recognition",
     design="3/C02")
@@ -105,7 +106,8 @@ CLAIMED["C05"] = dict(
          "numeric maximum, aggregate references ordered numerically by producer or consumer, and the placeholder's "
          "instance list modified only inside graph.py (flow-sensitive alias analysis of its readers) and selected by the "
          "placeholder's stage and name (component-wise dependence analysis with helper inlining). Holds for every iteration count because it constrains the comparison, not sampled counts."
-         " The rewritten loop binding is re-assembled from stage, producer, file and method of the original one.",
+         " The rewritten loop binding is re-assembled from stage, producer, file and method of the original one."
+         " Every occurrence of a reference is rewritten (no count limit at the substitution sites); a skipped placeholder has consumed its instances first. Two reproduced limitations of loop bindings (replicated looped producer, loop-to-loop binding) are listed as observed known findings.",
     technique="sibling cross-check lint over sort keys, format/parser agreement, CFG edge-dominance, SUB, "
               "reaching-definition alias analysis (who-may-write)",
     design="3/C05")
@@ -127,7 +129,8 @@ CLAIMED["C19"] = dict(
          "translate maps inverse; status/output section keys agree; known keys without reader branch are reported; writer converters are total over non-None values (a key is omitted "
          "only under a None-identity test). "
          "Value equality after a full round trip is not decided."
-         " The option tables are static (accessors stateless and fresh, no in-place mutation); writer converters change the case of boolean constants only; the parser neither interpolates nor validates '%'.",
+         " The option tables are static (accessors stateless and fresh, no in-place mutation); writer converters change the case of boolean constants only; the parser neither interpolates nor validates '%'."
+         " Optional [Output] keys are written only when not None; the writer emits one stage file per index because the reader requires 0..N-1.",
     technique="writer/reader table extraction from dict/lambda literals and an if/elif chain, set comparison",
     design="3/C19")
 
@@ -137,7 +140,8 @@ CLAIMED["C14"] = dict(
          "that swallowed a failed write, nobody opens the final path for writing, and the serialiser does not mutate the "
          "persisted object; plus escape/unescape agreement (same keys, inverse codecs, one key=value line, split on "
          "the first '='). Decides the write discipline for all crash points at once; byte-level outcomes per crash "
-         "point and fidelity of unescaped fields are not decided. Four genuine defects were repaired by fix: commits.",
+         "point and fidelity of unescaped fields are not decided. Four genuine defects were repaired by fix: commits."
+         " On reload the value of an escaped key is not normalised (strip/lower), and the listing output.json is derived from is parsed without %-interpolation.",
     technique="write-open/rename pairing on the CFG (temp-then-rename, rename-on-success-only), purity lint of "
               "serialisers, codec table agreement",
     design="3/C14")
@@ -149,7 +153,8 @@ CLAIMED["C15"] = dict(
          "numbered over ordered containers; single-pass substitutions (Template wrappers) never use a context mapping that "
          "is stored into in the same loop over it. Holds for every hash seed / directory order; equality of full dumps across "
          "processes is not run, networkx-internal ordering is an assumption."
-         " No function of the load-path modules stores a mutable object into class-level state; de-duplication of variable files keeps the last occurrence.",
+         " No function of the load-path modules stores a mutable object into class-level state; de-duplication of variable files keeps the last occurrence."
+         " A loop that re-keys a mapping under a normalised key iterates in sorted order.",
     technique="intra-procedural order-taint (set-typedness inference + sink classification) with a frozen exemption table",
     design="3/C15")
 
@@ -201,7 +206,8 @@ CLAIMED["C16"] = dict(
          "longest-first substitution; sorted hash traversal; cache/reset discipline; the computation keeps no state on the component or "
          "module between calls. The 'exactly when' equivalence "
          "over all pairs of definitions is not decided."
-         " The hashed executable is the component's own (blueprint chosen by existence, never by the spelling of the name) after variable substitution.",
+         " The hashed executable is the component's own (blueprint chosen by existence, never by the spelling of the name) after variable substitution."
+         " Both spellings of a reference are replaced by the content hash; a None hash is not post-processed; the serialisation must delimit its pieces (fails on the current tree: known finding C16.R11, unseparated concatenation).",
     technique="backward data slice for non-interference, CFG specialisation, finite truth table, SUB, table checks",
     design="3/C16")
 
@@ -213,7 +219,8 @@ CLAIMED["C17"] = dict(
          "takes the environment itself or the launch value of the same variable as context. Plus the "
          "branch table of environmentWithName ('none' adds nothing, default vs named, unknown names propagate), "
          "platform-over-default layering and lower-casing agreement of readers/writers. Holds for every launch "
-         "environment; the resulting dictionary for a concrete combination is not computed.",
+         "environment; the resulting dictionary for a concrete combination is not computed."
+         " FlowIRConcrete.instance layers platform over default environments per variable; the launch lookup may only follow an own-variable expansion iterated to a fixpoint (fails on the current tree: known finding C17.R5, chained references).",
     technique="who-may-read classification of os.environ uses, CFG branch-table and handler swallow-path analysis",
     design="3/C17")
 
